@@ -72,7 +72,7 @@ pub fn cfg_from_json(v: &J) -> Option<TableCfg> {
 }
 
 pub fn spec_to_json(s: &LineSpec) -> J {
-    json!({"k": s.k, "n": s.n, "r": s.r, "b": s.b, "d": s.d.map(|(y, m, d)| json!([y, m, d]))})
+    json!({"k": s.k, "n": s.n, "r": s.r, "b": s.b, "d": s.d.map(|(y, m, d, h, mi, sec, ms)| json!([y, m, d, h, mi, sec, ms]))})
 }
 
 pub fn spec_from_json(v: &J) -> Option<LineSpec> {
@@ -96,14 +96,16 @@ pub fn spec_from_json(v: &J) -> Option<LineSpec> {
         }
     }
     let d = match v.get("d") {
-        Some(J::Array(a)) if a.len() == 3 => {
+        Some(J::Array(a)) if a.len() == 3 || a.len() == 7 => {
             let y = a[0].as_i64()? as i32;
             let m = a[1].as_u64()? as u32;
             let dd = a[2].as_u64()? as u32;
-            if !(1000..=9999).contains(&y) || !(1..=12).contains(&m) || !(1..=28).contains(&dd) {
+            let part = |i: usize| -> u32 { a.get(i).and_then(|x| x.as_u64()).unwrap_or(0) as u32 };
+            let (h, mi, sec, ms) = (part(3), part(4), part(5), part(6));
+            if !(1000..=9999).contains(&y) || !(1..=12).contains(&m) || !(1..=28).contains(&dd) || h > 23 || mi > 59 || sec > 59 || ms > 999 {
                 return None;
             }
-            Some((y, m, dd))
+            Some((y, m, dd, h, mi, sec, ms))
         }
         _ => None,
     };
@@ -247,6 +249,8 @@ impl Property for C06 {
             "steps": steps_to_json(&steps),
             "read_mode": read_mode_to_json(&gen::gen_read_mode(rng)),
             "single": rng.chance(1, 3),
+            // the file before a split point may lack its final newline (noisy twin only)
+            "split_nl": !rng.chance(1, 3),
         })
     }
 
@@ -256,6 +260,7 @@ impl Property for C06 {
         array_field(case, "items", &mut out);
         array_field(case, "jitems", &mut out);
         array_field(case, "split", &mut out);
+        bool_field(case, "split_nl", true, &mut out);
         bool_field(case, "follow", false, &mut out);
         array_field(case, "cuts", &mut out);
         steps_field(case, "steps", &mut out);
@@ -349,15 +354,20 @@ impl Property for C06 {
 
         // --- twin worlds: clean = admitted lines only, noisy = everything
         let split: Vec<usize> = jusizes(case, "split").into_iter().map(|s| s.min(noisy.len())).collect();
+        let split_nl = case.get("split_nl").and_then(|x| x.as_bool()).unwrap_or(true);
         let build_files = |keep_all: bool| -> Vec<Vec<u8>> {
             let mut bounds = split.clone();
             bounds.sort();
             bounds.push(noisy.len());
             let mut files = Vec::new();
             let mut prev = 0;
-            for b in bounds {
+            let last = bounds.len() - 1;
+            for (bi, b) in bounds.into_iter().enumerate() {
                 let ls: Vec<Vec<u8>> = (prev..b).filter(|i| keep_all || admitted[*i]).map(|i| noisy[i].clone()).collect();
-                files.push(gen::join_lines(&ls, true));
+                // a non-last file of the noisy twin may end without a newline: its last line is still one line
+                // (an empty last line cannot be unterminated: it would not be a line at all)
+                let final_nl = !(keep_all && bi < last && !split_nl && ls.last().map(|l| !l.is_empty()).unwrap_or(false));
+                files.push(gen::join_lines(&ls, final_nl));
                 prev = b;
             }
             files
@@ -432,6 +442,7 @@ impl Property for C06 {
         out.probe("noise_in_joined_file", joined_noise as u64);
         out.probe("noise_first_line", (!admitted[0]) as u64);
         out.probe("noise_last_line", (!admitted[admitted.len() - 1]) as u64);
+        out.probe("file_without_final_newline_before_next_file", (!split_nl && !split.is_empty()) as u64);
         out.probe("noise_across_file_boundary", split.iter().any(|s| (*s > 0 && !admitted[*s - 1]) || (*s < admitted.len() && !admitted[*s])) as u64);
         out.probe(&format!("kind_{}", kind), 1);
         out.probe("default_only_row_admitted", items.iter().zip(expected_rows.iter()).any(|(it, e)| matches!(it, Item::Row(s) if s.k.is_none() && s.n.is_none() && s.r.is_none() && !s.b && s.d.is_none()) && e.is_some()) as u64);
